@@ -205,6 +205,38 @@ def main():
                 po["discharged"] += 1
             else:
                 po["broken"].append("theorem %s depends on %s" % (full, sorted(ax - ALLOWED_AXIOMS)))
+    # the three translation ties composed (C03, C05): translated decoder, then translated score functions = FIRST / model scores
+    e2e = "not used by this property"
+    if prop in ("C03", "C05") and not args.replay:
+        if ftie and ftie["status"] == "proved" and ttie and ttie["status"] == "proved":
+            dall = props.run_decoders("C12")
+            if dall["status"] == "proved":
+                ok, log = core.build_lean([props.ALL_MODULE])
+                if ok:
+                    listed, err = audit([props.ALL_MODULE])
+                    by = {d.get("theorem"): d for d in listed if "theorem" in d}
+                    for t in props.ALL_THEOREMS:
+                        full = props.ALL_MODULE + "." + t
+                        d = by.get(full)
+                        po["obligations"] += 1
+                        if d is None:
+                            po["broken"].append("theorem missing: " + full)
+                            continue
+                        ax = set(d.get("axioms", []))
+                        po["axioms"][full] = sorted(ax)
+                        if ax <= ALLOWED_AXIOMS:
+                            po["discharged"] += 1
+                        else:
+                            po["broken"].append("theorem %s depends on %s" % (full, sorted(ax - ALLOWED_AXIOMS)))
+                    e2e = "proved: Props/SrcAll.lean (translated decoder -> translated score functions -> specification) checks against the source text of this run"
+                else:
+                    errs = [l for l in log.splitlines() if l.startswith("error:")]
+                    po["broken"].append("Props/SrcAll.lean does not build although the three translation ties check: " + " | ".join(errs)[:600])
+                    e2e = "broken"
+            else:
+                e2e = "not composed in this run: the decoder translation is %s (%s)" % (dall["status"], ", ".join(dall.get("not_understood", [])[:8]))
+        else:
+            e2e = "not composed in this run: the formula or table translation is not 'proved'"
     tie_lost = bool(ftie and ftie["status"] == "lost" and ftie["relevant"])
     tab_lost = bool(ttie and ttie["status"] == "lost" and ttie["relevant"])
     dec_lost = bool(dtie and dtie["status"] == "lost" and dtie["relevant"])
@@ -304,6 +336,7 @@ def main():
                             "lost-elsewhere": "an equality about a function this property is not about no longer checks; those it is about do",
                             "lost": "the source is understood but no longer provably the model; search widened"}[dtie["status"]]}
                 if dtie else "not used by this property"),
+            "end_to_end_source": e2e,
             "names_tables_source": ("go/extract (source translator)" if props.NAMES_SOURCE == "ast" else
                                     "behavioural probe of the names functions on -130..130 (fallback; claims for integers outside that "
                                     "range are not covered in this run): " + props.NAMES_NOTE[:300]) if getattr(spec, "needs_extract", False) else "not used",
